@@ -150,7 +150,19 @@ class InitFlow:
         if f.get("record"):
             roots[sym.sym("this")] = "this"
         first = {i: {} for i in roots.values()}
-        self._walk(f, eff, roots, first, {}, None)
+        saved_vs, saved_ne, saved_rr = self._valsets, self._nonempty, self._rk_rec
+        prec = {}
+        for i, q in enumerate(f.params):
+            tq = q["t"].replace("const", "").replace("struct", "").replace("*", "").replace("&", "").strip()
+            if tq in self.v.records:
+                prec[i] = tq
+        if f.get("record"):
+            prec["this"] = f.record
+        self._valsets, self._nonempty, self._rk_rec = self._pointer_value_sets(eff), {}, prec
+        try:
+            self._walk(f, eff, roots, first, {}, None)
+        finally:
+            self._valsets, self._nonempty, self._rk_rec = saved_vs, saved_ne, saved_rr
         self.busy.discard(usr)
         self.memo[usr] = first
         return first
@@ -234,9 +246,9 @@ class InitFlow:
                 continue
             if e == "call":
                 args = x.get("args") or []
-                for a in args:
-                    # a pointer variable that is reassigned in a loop (ping-pong buffers): every object it may designate gets
-                    # the benefit of the doubt -- the callee may write it
+                # a pointer variable that is reassigned in a loop (ping-pong buffers) may designate several objects
+                may = {}
+                for pi_, a in enumerate(args):
                     cands_ = []
                     if isinstance(a, tuple) and a and a[0] == "var" and len(a) > 2:
                         cands_ = list(self._valsets.get(a[2], ()))
@@ -250,11 +262,25 @@ class InitFlow:
                                 cands_ += list(self._valsets.get(t_[2], ()))
                             else:
                                 cands_.append(t_)
+                    cands_ = [o_ for o_ in cands_ if o_ in roots]
                     if cands_:
+                        may[pi_] = cands_
+                if may and local_events is not None:
+                    # objects created here: the callee may write them -- benefit of the doubt (no refutation)
+                    for pi_, cands_ in may.items():
                         for obj_ in cands_:
-                            if obj_ in roots:
-                                self._event(roots[obj_], (), "W", first, defined, local_events, x["l"],
-                                            "through pointer expression %s" % (sym.show(a)[:40],), prefix=True)
+                            self._event(roots[obj_], (), "W", first, defined, local_events, x["l"],
+                                        "through pointer expression %s" % (sym.show(args[pi_])[:40],), prefix=True)
+                elif may:
+                    # summary of a function over its parameters: what the callee reads first through such a pointer is a possible
+                    # first read of the parameter (what it writes is only a possible write and defines nothing)
+                    g_ = v.defs.get(x.get("usr"))
+                    sub_ = self.summary(g_.usr) if g_ is not None else None
+                    for pi_, cands_ in may.items():
+                        for q, kind in sorted(((sub_ or {}).get(pi_) or {}).items()):
+                            if kind == "R":
+                                for obj_ in cands_:
+                                    self._event(roots[obj_], tuple(q), "R", first, defined, local_events, x["l"], "via %s through a pointer variable" % x["name"])
                 for a in args:
                     # scalar uses inside argument expressions (a[i] passed by value)
                     if a is not None and not self._is_pointer_arg(a):
@@ -329,6 +355,9 @@ class InitFlow:
         return roots[r], tuple(fields_of(t))
 
     def _event(self, rk, path, kind, first, defined, local_events, line, how, prefix=False):
+        rec_ = self._rk_rec.get(rk)
+        if rec_:
+            path = self.canon(rec_, path)      # b->coefsT and a->coefsT of a TLWE sample are the same storage
         key = (rk, path)
         if kind == "W":
             defined[key] = True
@@ -413,6 +442,7 @@ class InitFlow:
     # ------------------------------------------------------------------ locals of one function
     _valsets = {}
     _nonempty = {}
+    _rk_rec = {}
 
     @staticmethod
     def _pointer_value_sets(eff):
@@ -428,6 +458,9 @@ class InitFlow:
         for x in flat(eff):
             if x["e"] == "local" and x.get("op") in ("decl", "=") and isinstance(x.get("new", x.get("val")), tuple):
                 direct.setdefault(x["id"], set()).update(alts(x.get("new", x.get("val"))))
+            elif x["e"] == "store" and x.get("op") == "=" and x["lv"][0] == "var" and len(x["lv"]) > 2 and isinstance(x.get("val"), tuple):
+                # a local kept in memory (its address is taken, e.g. by std::swap)
+                direct.setdefault(x["lv"][2], set()).update(alts(x["val"]))
         changed = True
         while changed:
             changed = False
@@ -463,6 +496,7 @@ class InitFlow:
         roots = {o: ("obj", k) for k, o in enumerate(objs)}
         first = {rk: {} for rk in roots.values()}
         events = []
+        self._rk_rec = {roots[o]: info[0] for o, info in objs.items() if info[0]}
         self._valsets = self._pointer_value_sets(eff)
         self._nonempty = {roots[o]: sz for o, sz in sizes_.items() if sz is not None and o in roots}
         self._extents = {}
